@@ -683,6 +683,24 @@ class LocalVarsVisitor(ast.NodeVisitor):
             self.vars.add(node.id)
         self.generic_visit(node)
 
+    def visit_ImportFrom(self, node: ast.ImportFrom) -> Any:
+        # 'from m import f [as g]' inside the body binds a local name to an object: it is not the name of a
+        # module that could be imported from sys.path. ('import pkg.mod' is different: the name is a module and
+        # is resolved by importing it.)
+        for alias in node.names:
+            if alias.name != "*":
+                self.vars.add(alias.asname or alias.name)
+
+    def visit_Import(self, node: ast.Import) -> Any:
+        for alias in node.names:
+            if alias.asname:
+                # 'import pkg.mod as m': the module called m on sys.path (if any) is not this one
+                self.vars.add(alias.asname)
+
+    def visit_ClassDef(self, node: ast.ClassDef) -> Any:
+        self.vars.add(node.name)
+        self.generic_visit(node)
+
     def visit_ExceptHandler(self, node: ast.ExceptHandler) -> Any:
         if node.name:
             self.vars.add(node.name)
